@@ -54,7 +54,8 @@ def run(patch):
     finally:
         shutil.rmtree(d, ignore_errors=True)
         shutil.rmtree(out, ignore_errors=True)
-patches = sorted(p for p in glob.glob(os.path.join(here, 'benign', '*.patch')) if only in p)
+frm = args[args.index('--from')+1] if '--from' in args else ''
+patches = sorted(p for p in glob.glob(os.path.join(here, 'benign', '*.patch')) if only in p and os.path.basename(p) >= frm)
 nbad = 0
 with cf.ThreadPoolExecutor(jobs) as ex:
     for name, st, info in ex.map(run, patches):
